@@ -4,6 +4,14 @@ import (
 	"strings"
 )
 
+func init() {
+	// JSON encoding prints a Status with String(); register those names so that
+	// the printed form can be parsed back, next to the generated STATUS_* names.
+	for value := range Status_name {
+		Status_value[Status(value).String()] = value
+	}
+}
+
 func (s Status) String() string {
 	switch s {
 	case StatusActive:
